@@ -302,6 +302,8 @@ def write_evidence(ctx, pm, lean, violations_n):
         'build_seconds': lean.get('build_s'),
         'notes': ctx.notes,
     }
+    if lean.get('info'):
+        cov['composition_theorems'] = lean['info']
     ev = {
         'property_id': ctx.prop,
         'tier': ctx.tier,
@@ -366,6 +368,19 @@ def lean_phase(ctx, pm):
                 else:
                     n += 1
             lean['discharged'] = n if not hits else 0
+            # composition theorems (e.g. Props/Pipeline.lean): built and audited for information. They follow from the
+            # property theorems of several properties; when one no longer builds, the check of the component whose
+            # theorem changed reports it, so this is recorded in the evidence and never raised as a violation here.
+            info_t = getattr(pm, 'INFO_TARGETS', [])
+            if info_t:
+                oki, outi, _ = lake_build(info_t)
+                info = {'targets': info_t, 'built': oki}
+                if oki and getattr(pm, 'INFO_THEOREMS', []):
+                    _, _, iax = audit_axioms(ctx.prop + '_info', pm.INFO_THEOREMS, ctx.tmp)
+                    info['axioms'] = iax
+                elif not oki:
+                    info['log'] = outi[-1500:]
+                lean['info'] = info
             if ctx.tier == 'thorough' and not lean['broken']:
                 mods = [t for t in pm.LEAN_TARGETS]
                 rc, cout = run(['lake', 'env', 'leanchecker'] + mods, cwd=LEAN_DIR, timeout=3000)
